@@ -198,6 +198,7 @@ def _(c):
 @contract('gemato/openpgp.py', 'SystemGPGEnvironment.clear_sign_file', props=['C14', 'C18'])
 def _(c):
     c.params(self=GPGEnv, f=FileObjT(), outf=SinkT(), keyid=Opt(Str))
+    c.modifies(('outf', '_written'))
     c.returns(NoneT)
     c.only_raises('OpenPGPSigningFailure', 'OpenPGPNoImplementation')
 
